@@ -13,18 +13,18 @@ from ..monitors import ModelMutated, freeze
 from ..refast import pp
 from .c08 import rand_stmts
 
-W_UNUSED_VAR = re.compile(r'^Unused variable "(.+)" defined in function "(.+)" \(index (\d+)\)$')
-W_UNUSED_ARG = re.compile(r'^Unused argument "(.+)" of function "(.+)" \(index (\d+)\)$')
-W_UNUSED_LABEL_FN = re.compile(r'^Unused label "(.+)" in function "(.+)" \(index (\d+)\)$')
-W_UNUSED_LABEL_G = re.compile(r'^Unused global label "(.+)" \(index (\d+)\)$')
-W_POINTLESS_FN = re.compile(r'^Pointless statement in function "(.+)" \(index (\d+)\)$')
+W_UNUSED_VAR = re.compile(r'^Unused variable "(.*)" defined in function "(.*)" \(index (\d+)\)$')
+W_UNUSED_ARG = re.compile(r'^Unused argument "(.*)" of function "(.*)" \(index (\d+)\)$')
+W_UNUSED_LABEL_FN = re.compile(r'^Unused label "(.*)" in function "(.*)" \(index (\d+)\)$')
+W_UNUSED_LABEL_G = re.compile(r'^Unused global label "(.*)" \(index (\d+)\)$')
+W_POINTLESS_FN = re.compile(r'^Pointless statement in function "(.*)" \(index (\d+)\)$')
 W_POINTLESS_G = re.compile(r'^Pointless global statement \(index (\d+)\)$')
-W_UNKNOWN_FN = re.compile(r'^Unknown label "(.+)" in function "(.+)" \(index (\d+)\)$')
-W_UNKNOWN_G = re.compile(r'^Unknown global label "(.+)" \(index (\d+)\)$')
-W_REDEF_FN = re.compile(r'^Redefinition of function "(.+)" \(index (\d+)\)$')
-W_REDEF_LABEL_FN = re.compile(r'^Redefinition of label "(.+)" in function "(.+)" \(index (\d+)\)$')
-W_REDEF_LABEL_G = re.compile(r'^Redefinition of global label "(.+)" \(index (\d+)\)$')
-W_DUP_ARG = re.compile(r'^Duplicate argument "(.+)" of function "(.+)" \(index (\d+)\)$')
+W_UNKNOWN_FN = re.compile(r'^Unknown label "(.*)" in function "(.*)" \(index (\d+)\)$')
+W_UNKNOWN_G = re.compile(r'^Unknown global label "(.*)" \(index (\d+)\)$')
+W_REDEF_FN = re.compile(r'^Redefinition of function "(.*)" \(index (\d+)\)$')
+W_REDEF_LABEL_FN = re.compile(r'^Redefinition of label "(.*)" in function "(.*)" \(index (\d+)\)$')
+W_REDEF_LABEL_G = re.compile(r'^Redefinition of global label "(.*)" \(index (\d+)\)$')
+W_DUP_ARG = re.compile(r'^Duplicate argument "(.*)" of function "(.*)" \(index (\d+)\)$')
 
 
 def plan(tier, seed):
@@ -345,6 +345,27 @@ def run_models(spec, acc, api):
             # variable names are arbitrary strings at model level (the empty string and names with blanks are schema-valid)
             # (30 %: function statements nested inside function bodies - schema-valid, they bind GLOBAL functions when executed)
             stmts = rand_stmts(rnd, rnd.randint(1, 30), ['n', 'm', 'c'] if rnd.random() < 0.7 else ['n', '', 'c', 'x y', '0'], False, nested=rnd.random() < 0.3)
+            if rnd.random() < 0.2:
+                # function and label names are arbitrary strings at model level as well (braces, blanks, percent signs, empty)
+                fmap = {'f1': rnd.choice(['on{click}', 'open{', '{}', 'fmt{0}', 'a b', '100%s', '']), 'f2': rnd.choice(['{x', 'g}', '%(n)s', 'f\\2'])}
+                lmap = {'A': rnd.choice(['{A}', 'l {', '%d']), 'C': '{}'}
+
+                def ren(node):
+                    if isinstance(node, dict):
+                        if 'function' in node and 'statements' in node['function'] and node['function']['name'] in fmap:
+                            node['function']['name'] = fmap[node['function']['name']]
+                        elif 'function' in node and 'statements' not in node['function'] and node['function'].get('name') in fmap:
+                            node['function']['name'] = fmap[node['function']['name']]
+                        if 'label' in node and isinstance(node['label'], str) and node['label'] in lmap:
+                            node['label'] = lmap[node['label']]
+                        if 'jump' in node and node['jump'].get('label') in lmap:
+                            node['jump']['label'] = lmap[node['jump']['label']]
+                        for v in node.values():
+                            ren(v)
+                    elif isinstance(node, list):
+                        for v in node:
+                            ren(v)
+                ren(stmts)
             if rnd.random() < 0.3:
                 for st in stmts:
                     if 'function' in st and st['function'].get('args') and rnd.random() < 0.5:
